@@ -1,5 +1,5 @@
 import BoolFn.Proofs.TableOps
-import BoolFn.Bdd
+import BoolFn.Proofs.BddSubst
 /-! # C08 — Substitution is simultaneous functional composition
 
 Substituting functions for variables yields a function whose value at x equals the original's value
@@ -157,11 +157,71 @@ theorem table_key_stays_only_if_mentioned (m : List (α × Table α)) (hkeys : (
   rcases ((table_substitute m hkeys hwf t h).2.1 k).mp hin with ⟨_, hnot⟩ | h2
   · exact absurd hk hnot
   · exact h2
+
+/-! ### decision diagrams (repaired substitute: proxy variables) -/
+
+/-- **substitution on diagrams is simultaneous composition**: when no replacement mentions the
+    variable it replaces, the call does not panic (the `expect`s, lib-bdd's `set_num_vars` /
+    `rename_variables` assertions and prune's `debug_assert!` never fire), the result is well-formed,
+    its inputs are exactly the non-substituted inputs of the original together with the inputs of the
+    replacements that are not unmentioned keys, and its value is the original's at the composed
+    assignment, every replacement evaluated at the same `ρ` -/
+theorem bdd_substitute (m : List (α × Bdd α)) (hkeys : (m.map (·.1)).Nodup) (hwf : ∀ kv ∈ m, kv.2.WF)
+    (b : Bdd α) (h : b.WF) (hno : ∀ kv ∈ m, kv.1 ∉ kv.2.inputs) :
+    ∃ b', Bdd.substitute m b = .ok b' ∧ b'.WF ∧
+      (∀ x, x ∈ b'.inputs ↔ (x ∈ b.inputs ∨ ∃ kv ∈ m, x ∈ kv.2.inputs) ∧
+        ((lookup m x).isNone = true ∨ ∃ kv ∈ m, x ∈ kv.2.inputs)) ∧
+      ∀ ρ, b'.den ρ = b.den (composed Bdd.den m ρ) := by
+  obtain ⟨b', h1, h2, h3, h4⟩ := Bdd.substitute_den m hkeys hwf b h hno
+  refine ⟨b', h1, h2, h3, fun ρ => ?_⟩
+  rw [h4]
+  congr 1
+  funext x
+  simp only [composed]
+  cases lookup m x <;> rfl
+
+/-- a substituted variable stays an input of the diagram only if some replacement mentions it -/
+theorem bdd_key_stays_only_if_mentioned (m : List (α × Bdd α)) (hkeys : (m.map (·.1)).Nodup)
+    (hwf : ∀ kv ∈ m, kv.2.WF) (b b' : Bdd α) (h : b.WF) (hno : ∀ kv ∈ m, kv.1 ∉ kv.2.inputs)
+    (hb' : Bdd.substitute m b = .ok b') (k : α) (hk : (lookup m k).isSome = true) (hin : k ∈ b'.inputs) :
+    ∃ kv ∈ m, k ∈ kv.2.inputs := by
+  obtain ⟨b'', h1, _, h3, _⟩ := bdd_substitute m hkeys hwf b h hno
+  rw [hb'] at h1; cases h1
+  rcases ((h3 k).mp hin).2 with hn | h2
+  · cases hl : lookup m k with
+    | none => rw [hl] at hk; cases hk
+    | some g => rw [hl] at hn; cases hn
+  · exact h2
+
+/-- the only refusal is the documented one: the call panics exactly when some replacement mentions
+    the variable it replaces (and then with the message of `boolean_function.rs`) -/
+theorem bdd_refuses_iff_self_reference (m : List (α × Bdd α)) (hkeys : (m.map (·.1)).Nodup)
+    (hwf : ∀ kv ∈ m, kv.2.WF) (b : Bdd α) (h : b.WF) :
+    (∃ site, Bdd.substitute m b = .panic site) ↔ ∃ kv ∈ m, kv.1 ∈ kv.2.inputs := by
+  constructor
+  · rintro ⟨site, hp⟩
+    apply Classical.byContradiction
+    intro hnone
+    obtain ⟨b', hb', _⟩ := bdd_substitute m hkeys hwf b h (fun kv hkv hin => hnone ⟨kv, hkv, hin⟩)
+    rw [hp] at hb'; cases hb'
+  · rintro ⟨kv, hkv, hin⟩
+    refine ⟨"boolean_function.rs:79 substituted variable appears in the substituting BDD", ?_⟩
+    unfold Bdd.substitute
+    rw [if_pos]
+    rw [List.any_eq_true]
+    exact ⟨kv, hkv, by simpa using hin⟩
 end
 
 /-- the pre-repair table substitution read an unmentioned key with the default: witness kept as a
     replay (`a & c`, `{a := b}`); the repaired model gives `b & c` -/
 example : (Table.substitute [(1, (⟨[2], [false, true]⟩ : Table Nat))] ⟨[1, 3], [false, false, false, true]⟩)
     = ⟨[2, 3], [false, false, false, true]⟩ := by decide
+
+/-- non-vacuity for diagrams: the swap `{a := b, b := a}` on `a & !b` is accepted and gives `b & !a`
+    (the pre-repair sequential substitution collapsed it) -/
+example : (match Bdd.substitute [(1, Bdd.mkLiteral 2 true), (2, Bdd.mkLiteral 1 true)]
+      (⟨[1, 2], ⟨2, [false, true, false, false]⟩⟩ : Bdd Nat) with
+    | .ok b => b.inputs == [1, 2] && b.inner.tt == [false, false, true, false]
+    | .panic _ => false) = true := by decide
 
 end BoolFn.C08
